@@ -39,10 +39,19 @@ def unknownCodegenReads : List String := []
 /-- disagreements between the ast extraction and the probing of live instances -/
 def extractionMismatches : List String := []
 
+/-- how `compile_cython_module` names the on-disk module (ast of compile.py): `'mod' + hashlib.shake_128(src.encode()).hexdigest(8)` -/
+def modnameAlg : String := "shake_128"
+def modnameBits : Nat := 64
+def modnameOfFullSource : Bool := true
+def cryptographicDigests : List String :=
+  ["shake_128", "shake_256", "md5", "sha1", "sha224", "sha256", "sha384", "sha512", "sha3_224", "sha3_256", "sha3_384", "sha3_512", "blake2b", "blake2s"]
+
 theorem keyTable_complete : KeyTableComplete keyTable = true := by decide
 theorem fkeyTable_complete : FKeyTableComplete fkeyTable = true := by decide
 theorem base_hash_ok : baseHashHasTypeShapeChildren = true := by decide
 theorem codegen_reads_known : unknownCodegenReads = [] := by decide
 theorem extraction_consistent : extractionMismatches = [] := by decide
+/-- the module name is a cryptographic digest of at least 64 bits of the *whole* generated source -/
+theorem modname_digest_ok : (cryptographicDigests.contains modnameAlg && decide (64 ≤ modnameBits) && modnameOfFullSource) = true := by decide
 
 end Pyiga.Gen.HashKeys
